@@ -177,3 +177,48 @@ Example C06_stream_example :
   /\ legal_N 32 [ex_r1; ex_r2; ex_r1] = true /\ legal_N (N.to_nat buffer_size) [ex_r1; ex_r2; ex_r1] = true
   /\ legal_V [ex_r1; ex_r2; ex_r1] = true /\ legal_VB [[ex_r1; ex_r2]; [ex_r1]] = true.
 Proof. exact ex_stream_ok. Qed.
+
+(* ------------------------------------------------------------------------------------------------
+   C06 in general form (Proofs/LayoutOdoP.v, extending C01's development): OCCURS DEPENDING ON tables -
+   elementary or group - anywhere a non-repeated item may stand: in the record, in nested non-repeated
+   groups, in sibling groups, next to REDEFINES unions; each counter an elementary non-repeated item
+   outside every union and table that comes earlier in the record ([wfo]); names pairwise distinct.
+   For EVERY such record description, EVERY count vector e and EVERY record r (over any element type)
+   that carries e at the places of its non-repeated elementary items ([Holds]): every navigation path
+   lands on the bytes the COBOL rules assign for THIS record's counts, the number of occurrences of a
+   table is its counter's value, an index at or beyond it is IndexError, and the record ends at its
+   extent. *)
+Require Import SR.Proofs.LayoutP SR.Proofs.LayoutOdoP.
+
+Theorem C06_layout : forall (B : Type) (dcount : list B -> nat) (r : list B) (e : env) (t : item),
+  wfo e [] t = true -> NoDup (ids t) -> Holds B dcount r e t 0 ->
+  exists v0, nav_of dcount r (build t) = Ok v0
+    /\ lstart (n_loc v0) = 0 /\ lend (n_loc v0) = extent e t
+    /\ forall p v st, spec_nav e (VItem t) 0 p = inl (v, st) ->
+         exists nv, nav_path dcount r v0 p = Ok nv
+           /\ lstart (n_loc nv) = st /\ lend (n_loc nv) = st + view_size e v
+           /\ nav_raw r nv = slice r st (st + view_size e v)
+           /\ (forall x, v = VItem x -> is_table x = true ->
+                 forall i, count e (item_oc x) <= i -> nav_index dcount r nv i = Err IndexError).
+Proof. exact layout_correct_odo. Qed.
+Print Assumptions C06_layout.
+
+(* Non-vacuity: 01 R. 05 N PIC 9. 05 G. 10 A PIC X(2). 10 T OCCURS 0 TO 9 DEPENDING ON N PIC X(3).
+   05 S. 10 U OCCURS DEPENDING ON N. 15 V PIC X. 05 Z PIC X(2).  (ids R=1 N=2 G=3 A=4 T=5 S=6 U=7 V=8 Z=9)
+   with N = 2 in a record whose first byte decodes to 2: T[1] is at 6-9, U[1].V at 10-11, Z at 11-13. *)
+Definition odo_tree : item :=
+  Group 1%N Once None
+    (ICons (Elem 2%N 1 Once None)
+    (ICons (Group 3%N Once None (ICons (Elem 4%N 2 Once None) (ICons (Elem 5%N 3 (Odo 2%N) None) INil)))
+    (ICons (Group 6%N Once None (ICons (Group 7%N (Odo 2%N) None (ICons (Elem 8%N 1 Once None) INil)) INil))
+    (ICons (Elem 9%N 2 Once None) INil)))).
+
+Definition odo_env : env := fun c => if N.eqb c 2 then 2 else 0.
+
+Example C06_layout_example :
+  wfo odo_env [] odo_tree = true
+  /\ extent odo_env odo_tree = 13
+  /\ spec_nav odo_env (VItem odo_tree) 0 [PName 3%N; PName 5%N; PIndex 1] = inl (VOcc (Elem 5%N 3 (Odo 2%N) None), 6)
+  /\ spec_nav odo_env (VItem odo_tree) 0 [PName 6%N; PName 7%N; PIndex 1; PName 8%N] = inl (VItem (Elem 8%N 1 Once None), 10)
+  /\ spec_nav odo_env (VItem odo_tree) 0 [PName 9%N] = inl (VItem (Elem 9%N 2 Once None), 11).
+Proof. vm_compute. repeat split; reflexivity. Qed.
